@@ -177,6 +177,9 @@ def check(ctx: Ctx) -> None:
                     bounded = derived_from_param(repo, fi, to, param)
                     why = "timeout derived from the parameter" if bounded else None
                 ex = EXEMPT.get((fi.short, a))
+                if ex is None and a == "waitfinish" and fi.short == "WorkerPool.spawn" and xtext(repo, fi, c.func.value) == "self._primary_thread_task":
+                    # the same hand-over step, merged into its only caller
+                    ex = EXEMPT[("WorkerPool._try_send_to_primary_thread", "waitfinish")]
                 if not bounded and ex:
                     # the reason must still hold: safe_terminate builds the pool without a primary thread
                     mk = [x for x in repo.calls_in(fs) if isinstance(x.func, ast.Name) and x.func.id == "WorkerPool"]
